@@ -142,8 +142,8 @@ func VerifH_C04_library_walk_edge_arguments() {
 	if lf.lib == "" && (lf.name == "print" || lf.name == "dofile" || lf.name == "loadfile" || lf.name == "collectgarbage") {
 		return // output / file system / process-wide collector: not this check's subject
 	}
-	if lf.lib == "package" || (lf.lib == "" && lf.name == "require") {
-		return
+	if lf.lib == "package" || (lf.lib == "" && lf.name == "require") || (lf.lib == "math" && lf.name == "randomseed") {
+		return // randomseed() reads the system's entropy source
 	}
 	verifReach("function-called")
 	nkinds := 8
